@@ -12,7 +12,7 @@ CHECKS = {
          "For every generated case the keep-going trace is recorded, then the run is repeated under BreakFrom(k) for every decision index k: the prefix must be identical, after the stop only hand-overs of the already built error may occur, and k=0 must return exactly the first keep-going report. Random scripts are checked against the local after-Break rule.",
          "Trusted: the monitor kit; deserr is deterministic so run-vs-run comparison is meaningful.", "§4 C03"),
  "C04": ("exploration", "runtime monitor: every recorded report and hand-over resolved against the original payload; hand-over sets vs reference model",
-         "Every report and every hand-over of every monitored run is checked against the payload (location resolves, quoted value IS the node there, missing really missing, unknown really present ...); per report the set of hand-over locations is compared with the reference model. Faults are placed systematically at every position of valid payloads.",
+         "Every report and every hand-over of every monitored run is checked against the payload (location resolves, quoted value IS the node there, missing really missing, unknown really present ...); per report the set of hand-over locations is compared with the reference model (keep-going run), and under every other answer script (always-Break, BreakFrom(k), random, nine answer policies by kind of decision) every hand-over must be at a position the types require, the first at the deepest. Faults are placed systematically at every position of valid payloads.",
          "Trusted: monitor kit, reference model of hand-over positions (Appendix A), unique keys in this workload.", "§4 C04"),
   "C02": ("exploration", "runtime monitor: recorded report multiset of the keep-going run vs reference interpreter; examine events of the instrumented value source",
          "Every keep-going execution of random multi-fault payloads, of every single and double structural mutation of valid payloads and of the per-field state product is recorded; the multiset of (digest, location) reports held by the returned error must equal the reference interpreter's, Unexpected messages must state the model's facts, and every node the model deserializes must have been examined.",
@@ -24,7 +24,7 @@ CHECKS = {
          "Payloads over the union of plausible keys of every field, each carrying its own sentinel, identify the key each field was read from; compared with the reference interpreter whose effective keys never come from the macro.",
          "Trusted: the hand-written keys of the catalogue and the generator's renaming rules.", "§4 C07"),
  "C08": ("exploration", "runtime monitor: all 2^n key subsets per struct-like body, reports / custom-function calls / values / examine events vs reference interpreter",
-         "All subsets of keys deleted, crossed with nulling and corrupting another key and with entries named like skipped fields; missing reports, custom missing-field calls, defaults, map and never-examined skipped entries are compared with the reference interpreter.",
+         "All subsets of keys deleted, crossed with nulling and corrupting another key and with entries named like skipped fields; missing reports, custom missing-field calls, defaults, map and never-examined skipped entries are compared with the reference interpreter; model-free, with every key presented twice in turn, a present key is never reported missing.",
          "Trusted: reference interpreter; instrumented value source for the never-examined claim.", "§4 C08"),
  "C09": ("exploration", "runtime monitor: UnknownKey reports / custom calls vs reference interpreter + metamorphic invariance under added members",
          "With deny_unknown_fields the exact reports and custom-function calls are compared with the reference interpreter; without it, adding arbitrary members (near misses, skipped names) to every object must leave value and report multiset unchanged.",
@@ -33,13 +33,13 @@ CHECKS = {
          "For every variant of every enum the tag/string is given in nine spellings, as a non-string of every kind, missing, under a case-flipped key, at three positions, with own / foreign / no fields; the selected variant and the reports are compared with the reference interpreter.",
          "Trusted: reference interpreter and hand-written effective variant names.", "§4 C10"),
  "C11": ("exploration", "runtime monitor: call log of instrumented user functions (count, argument, location, order) vs reference interpreter + local trace rules",
-         "Instrumented from/try_from/map/validate functions log every call; the call multiset, foreign reports, hand-over sets and values are compared with the reference interpreter, and model-free trace rules check the exactly-once crossing of field-level error types and that nothing below a container happens after its validate.",
+         "Instrumented from/try_from/map/validate functions log every call; the call multiset, foreign reports, hand-over sets and values are compared with the reference interpreter, which error type receives each report first is compared too, and model-free trace rules check the exactly-once crossing of field-level error types, that nothing below a container happens after its validate, and (under nine answer policies) the hand-over chain and that no extra user function runs.",
          "Trusted: instrumented functions mirrored in refmodel::vf.", "§4 C11"),
  "C15": ("exploration", "runtime monitor: metamorphic comparison of recorded runs under all member permutations (no model)",
          "Every object of every generated payload is presented in all permutations of its members (<= 5 members, random beyond) through the order-preserving instrumented source; Ok projections and report multisets must be equal.",
          "Trusted: determinism of deserr; unique keys.", "§4 C15"),
  "C12": ("fault_enumeration", "runtime monitor: catch_unwind around every call of a hostile workload + observed child processes on small stacks at depth 128",
-         "Every deserialize call of a hostile workload (all subjects x adversarial payloads x answer scripts x value sources x built-in error types) runs under catch_unwind; a child process runs all subjects on depth-128 nestings on 2 MiB and 8 MiB stacks and its termination status is observed.",
+         "Every deserialize call of a hostile workload (all subjects x adversarial payloads x answer scripts x value sources x built-in error types fed by serde_json and by the second value source) runs under catch_unwind; a child process runs all subjects on depth-128 nestings on 2 MiB and 8 MiB stacks and its termination status is observed.",
          "Trusted: panic = unwinding panic (panic=abort builds are out of scope); depth limited to 128 as the property states.", "§4 C12"),
  "C14": ("exploration", "runtime monitor: Display of the built-in error types vs the first structured report of the recorded keep-going run; path read-back",
          "For every failing payload the JsonError / QueryParamError message is checked (by containment) against the first report of the recorded keep-going run: rendered path, offending value as JSON text, missing field, unknown key/value with every alternative, suggestion iff an independent Damerau-Levenshtein spec gives one, lengths, detail message; the path parsed back from the JsonError message must resolve to the quoted value.",
@@ -51,10 +51,10 @@ CHECKS = {
          "All 30 scalar targets are driven through both value sources over all integers in [-70000, 70000], every 2^k-1/2^k/2^k+1 up to 2^64, every MIN/MAX +-1, ~2600 floats, strings of 0..4 scalars and every non-scalar kind; acceptance, exact value (floats bit-for-bit against a decimal-string rounding spec), accepted-kind sets and the facts in domain messages are checked by independent arithmetic.",
          "Trusted: Rust's str::parse::<f32/f64> as the correctly rounded reference; recording error type.", "§4 C05"),
  "C13": ("exploration", "runtime monitor: documents generated as text, round trips and kind agreement observed; classification from literal syntax",
-         "Every document of <= 4 nodes over a scalar alphabet, 58 numeric boundary literals and random documents are parsed from text and sent through Deserr for serde_json::Value and From<Value>; equality as values and as serialised text, kind() vs into_value().kind() at every node, and number classification against the literal's syntax.",
+         "Every document of <= 4 nodes over a scalar alphabet, 58 numeric boundary literals, random documents, and programmatically built documents nested up to 2000 levels or 70000 elements wide are and sent through Deserr for serde_json::Value and From<Value>; equality as values and as serialised text, kind() vs into_value().kind() at every node, and number classification against the literal's syntax.",
          "Trusted: serde_json's parser; the one documented corner that serde_json holds `-0` as a float.", "§4 C13"),
  "C16": ("exploration", "runtime monitor over the compiler's JSON diagnostics stream: every poisoned derive input must be rejected by a macro-issued diagnostic, every twin must compile",
-         "A matrix of 197 rejection causes (cause x level x spelling x item kind) is instantiated around seed-varied base items; the real macro runs inside cargo check and the diagnostics log is attributed to items by span. Every poisoned item needs an error without rustc code (a compile_error! from the derive), no diagnostic may mention a panic, every unpoisoned twin must compile (else inconclusive).",
+         "A matrix of 197 rejection causes (cause x level x spelling x item kind), each in the presence of every legal other attribute of its level and with foreign inert attributes (tool attributes, doc, cfg_attr, serde) before / between / after, is instantiated around seed-varied base items; the real macro runs inside cargo check and the diagnostics log is attributed to items by span. Every poisoned item needs an error without rustc code (a compile_error! from the derive), no diagnostic may mention a panic, every unpoisoned twin must compile (else inconclusive).",
          "Trusted: rustc's JSON diagnostics and span attribution; diagnostics are those of the pinned stable toolchain.", "§4 C16"),
  "C17": ("exploration", "runtime monitor: exhaustive enumeration of kind sequences, phrase parsed and compared with an independent set-based spec",
          "All 37 448 sequences of length 1..5, the empty list and every permutation of every subset of size 6-8 are passed to value_kinds_description_json; outputs must depend on the set only, parse as a / a or b / a, b, or c over the pinned vocabulary, name exactly the set (number / integer merging) in one consistent order.",
